@@ -98,10 +98,9 @@ def plan(pid, tier):
     for fx in fixtures:
       for k in F.ALL_KINDS:
         shards.append((fx, "one", k, 1, "full", "full", want, 0, None, None))
-        shards.append((fx, "one", k, 1, "med", "med", want, 4, None, None))
+        shards.append((fx, "one", k, 1, "med", "med", want, 4, 60.0, None))
         shards.append((fx, "one", k, 2, "micro", "micro", want, 0, 240.0, None))
         shards.append((fx, "seq", k, 2, "micro", "micro", want, 0, 240.0, None))
-        shards.append((fx, "one", k, 2, "small", "tiny", want, 0, 60.0, None))
         shards.append((fx, "seq", k, 3, "micro", "micro", want, 2, 60.0, None))
   return shards
 
@@ -140,7 +139,7 @@ def replay_cmd(pid, path):
 def run(pid, tier, seed):
   ev = common.Evidence(pid, "exploration", tier, seed)
   shards = plan(pid, tier)
-  args = [(fx, mode, k, n, size1, size2, w, pn, seed, ms, mr) for (fx, mode, k, n, size1, size2, w, pn, ms, mr) in shards]
+  args = [(fx, mode, k, n, size1, size2, w, pn, seed, common.fit_cap(ms, len(shards), tier), mr) for (fx, mode, k, n, size1, size2, w, pn, ms, mr) in shards]
   results = common.pmap(B.run_shard, args)
   runs = nontriv = 0
   solver_s = 0.0
